@@ -143,7 +143,9 @@ func (c CounterStyle) renderValue(counterValue int, counter *CounterStyleDescrip
 	// Step 2
 	counterRanges := counter.Range.Ranges
 	if counter.Range.Auto || counter.Range.IsNone() {
-		minRange, maxRange := math.MinInt32, math.MaxInt32
+		// an "auto" range is unbounded (a bound would send big values to the
+		// fallback style, whose auto range excludes them as well, endlessly)
+		minRange, maxRange := math.MinInt, math.MaxInt
 		if system == "alphabetic" || system == "symbolic" {
 			minRange = 1
 		} else if system == "additive" {
